@@ -126,26 +126,63 @@ Fixpoint split_at_dot (s : text) : text * option text :=
   end.
 Definition only_plain_chars (s : text) : bool :=
   forallb (fun c => is_digit c || (c =? 46)%N || (c =? 45)%N || (c =? 43)%N) s.
-Definition parse_float_trunc (s : text) : option (option Z) :=
-  if negb (only_plain_chars s) then
-    (* a float literal is digits with . e E + - _, a hex float (0x.. p..), or inf / infinity / nan in any case.
-       Surely rejected: a character that occurs in none of these, or no digit and no n/N at all.
-       Everything else outside the plain decimal grammar is left unmodelled. *)
-    let allowed := [101;69;120;88;112;80;95;105;73;110;78;102;70;116;84;121;89;97;65;98;66;99;67;100;68]%N in
-    if negb (forallb (fun c => is_digit c || (c =? 46)%N || (c =? 45)%N || (c =? 43)%N || existsb (N.eqb c) allowed) s) then Some None
-    else if negb (existsb is_digit s) && negb (existsb (fun c => (c =? 110)%N || (c =? 78)%N) s) then Some None
-    else None
-  else
+(* the plain decimal grammar [+-]digits[.digits] (at least one digit) *)
+Definition plain_decimal (s : text) : option (bool * text * text) :=
   let '(neg, body) := match s with
                       | 45%N :: r => (true, r)
                       | 43%N :: r => (false, r)
                       | _ => (false, s) end in
   let '(ip, fp) := split_at_dot body in
   let fpd := match fp with Some d => d | None => [] end in
-  if negb (forallb is_digit ip && forallb is_digit fpd) then Some None
-  else match ip, fpd with
-       | [], [] => Some None
-       | _, _ =>
-         let v := digits_val ip in
-         if v <? 9007199254740992 then Some (Some (if neg then - v else v)) else None
-       end.
+  if negb (forallb is_digit ip && forallb is_digit fpd) then None
+  else match ip, fpd with [], [] => None | _, _ => Some (neg, ip, fpd) end.
+(* split at the first e / E *)
+Fixpoint split_at_exp (s : text) : text * option text :=
+  match s with
+  | [] => ([], None)
+  | c :: r => if (c =? 101)%N || (c =? 69)%N then ([], Some r)
+              else let '(a, b) := split_at_exp r in (c :: a, b)
+  end.
+Definition is_plain_or_exp (c : N) : bool :=
+  is_digit c || (c =? 46)%N || (c =? 45)%N || (c =? 43)%N || (c =? 101)%N || (c =? 69)%N.
+
+Definition parse_float_trunc (s : text) : option (option Z) :=
+  if negb (only_plain_chars s) then
+    if forallb is_plain_or_exp s then
+      (* decimal scientific notation mantissa(e|E)[+-]digits: modelled for at most 15 significant digits and a
+         decimal exponent of magnitude at most 30 (the value is then far from any rounding boundary that could
+         change its integer part ... for the values it is used on); malformed pieces are rejected by ParseFloat *)
+      match split_at_exp s with
+      | (m, Some x) =>
+        match plain_decimal m, parse_int_text x with
+        | Some (neg, ip, fpd), Some e =>
+          let ds := ip ++ fpd in
+          let d := digits_val ds in
+          let scale := e - Z.of_nat (List.length fpd) in
+          if (15 <? Z.of_nat (List.length ds)) || (30 <? Z.abs e) then None
+          else let v := if 0 <=? scale then d * 10 ^ scale else d / 10 ^ (- scale) in
+               if v <? 9007199254740992 then Some (Some (if neg then - v else v)) else None
+        | _, _ => match x with
+                  | [] => Some None
+                  | _ => if forallb (fun c => is_digit c || (c =? 45)%N || (c =? 43)%N) x then
+                           (match plain_decimal m with None => Some None | Some _ => match parse_int_text x with None => None | Some _ => None end end)
+                         else Some None    (* a second e/E or a dot in the exponent *)
+                  end
+        end
+      | (_, None) => None
+      end
+    else
+    (* a float literal is digits with . e E + - _, a hex float (0x.. p..), or inf / infinity / nan in any case.
+       Surely rejected: a character that occurs in none of these, or no digit and no n/N at all.
+       Everything else outside the modelled grammars is left unmodelled. *)
+    let allowed := [101;69;120;88;112;80;95;105;73;110;78;102;70;116;84;121;89;97;65;98;66;99;67;100;68]%N in
+    if negb (forallb (fun c => is_digit c || (c =? 46)%N || (c =? 45)%N || (c =? 43)%N || existsb (N.eqb c) allowed) s) then Some None
+    else if negb (existsb is_digit s) && negb (existsb (fun c => (c =? 110)%N || (c =? 78)%N) s) then Some None
+    else None
+  else
+  match plain_decimal s with
+  | None => Some None
+  | Some (neg, ip, _) =>
+    let v := digits_val ip in
+    if v <? 9007199254740992 then Some (Some (if neg then - v else v)) else None
+  end.
